@@ -624,8 +624,8 @@ def c20_run(prop, tier, seed):
         for name, err in tp.map(build_t, targets):
             if err:
                 errors.append(dict(error='%s does not build: %s' % (name, err)))
-    runs = dict(poly=150000 if quick else 20000000)
-    qruns = 60000 if quick else 6000000
+    runs = dict(poly=150000 if quick else 8000000)
+    qruns = 60000 if quick else 2000000
     nproc = 1 if quick else 3
     procs = []
     for name, src, defs, statvar in targets:
